@@ -10,6 +10,7 @@
 #include "ledger.hpp"
 #include "common.hpp"
 #include "Value.hpp"
+#include "JSON.hpp"
 #include <memory>
 using namespace Qentem;
 
@@ -253,6 +254,30 @@ static void do_set(V *t, const PayT &p) {
                 case 'g': {
                     V tmp(SV{cp, n}); // Value(const StringViewT&)
                     *t = static_cast<V &&>(tmp);
+                    break;
+                }
+                // every way the API yields an EMPTY string (the units of the token are not its content):
+                case 'h': *t = Str{}; break; // default-constructed String: no storage
+                case 'i': {
+                    Str a{cp, n};
+                    Str b{static_cast<Str &&>(a)};
+                    *t = static_cast<Str &&>(a); // moved-from String: no storage
+                    break;
+                }
+                case 'j': {
+                    Str a{cp, n};
+                    a.Reset();
+                    *t = static_cast<Str &&>(a); // cleared String: no storage
+                    break;
+                }
+                case 'k': {
+                    V tmp(Str{}); // Value(StringT&&) of a default String
+                    *t = static_cast<V &&>(tmp);
+                    break;
+                }
+                case 'l': {
+                    V doc = JSON::Parse("[\"\"]", 4); // "" parsed from JSON: owns its terminator block
+                    *t    = static_cast<V &&>(doc[0]);
                     break;
                 }
                 default: {
